@@ -486,9 +486,43 @@ func (b *Builder) Produce(p Label, depth int, maxConvIn int) {
 	}
 	ins := append([]Label(nil), fs.In...)
 	b.AddConv(fs)
+	if len(ins) >= 2 && depth > 1 && !b.Pal.Hostile && g.Pct(35) && b.ProduceJoint(ins[0], ins[1], depth-1, maxConvIn) {
+		// a diamond: the first two inputs come from ONE converter with two
+		// outputs (both used)
+		ins = ins[2:]
+	}
 	for _, q := range ins {
 		b.Produce(q, depth-1, maxConvIn)
 	}
+}
+
+// ProduceJoint makes parameters p and q derivable through a single new
+// converter that outputs a compatible source for each of them. It reports
+// false (and adds nothing) when the two sources cannot share a result list.
+func (b *Builder) ProduceJoint(p, q Label, depth, maxConvIn int) bool {
+	g := b.G
+	if len(b.Sc.Convs) >= 7 {
+		return false
+	}
+	sp, sq := withDyn(g, CompatSource(g, b.Pal, p)), withDyn(g, CompatSource(g, b.Pal, q))
+	fs := FuncSpec{ID: b.NewID(), InForm: GenForm(g), OutForm: FormStruct, HasErr: g.Pct(b.Opts.ErrP)}
+	if !sp.Named() && sp.Sub == "" && !sq.Named() && sq.Sub == "" && sp.Type != sq.Type && g.Bool() {
+		fs.OutForm = FormPos
+	}
+	if !sideOK([]Label{sp}, sq, fs.OutForm, true, false) {
+		return false
+	}
+	fs.Out = []Label{sp, sq}
+	fs.In = GenSide(g, b.Pal, g.Int(1, maxConvIn), fs.InForm, false, false)
+	if len(fs.In) == 0 {
+		fs.InForm = FormPos
+	}
+	ins := append([]Label(nil), fs.In...)
+	b.AddConv(fs)
+	for _, r := range ins {
+		b.Produce(r, depth-1, maxConvIn)
+	}
+	return true
 }
 
 // Distract adds random inputs and converters from the palette.
@@ -903,6 +937,104 @@ func GenWide(g G, o GenFuncOpts) *Scenario {
 		b.Produce(p, g.Int(0, 8), 3)
 	}
 	b.Distract(4, 4)
+	b.ShuffleInputs()
+	return b.Sc
+}
+
+
+// GenLayered: multi-input converter sets that are acyclic BY CONSTRUCTION:
+// the six concrete types are ranked and every converter's inputs have strictly
+// lower rank than its outputs (no interfaces, so type compatibility is type
+// identity). Targets take the highest ranks. Diamonds (one converter feeding
+// two inputs of another) are frequent. This is premise (b) of C05.
+func GenLayered(g G, o GenFuncOpts) *Scenario {
+	order := rapid.Permutation([]int{0, 1, 2, 3, 4, 5}).Draw(g.T, "rank") // order[r] = type of rank r
+	rank := map[int]int{}
+	for r, t := range order {
+		rank[t] = r
+	}
+	pal := Palette{Types: order, Names: AllNames[:g.Int(1, 3)], NameP: Pick(g, []int{20, 40, 60})}
+	if g.Pct(40) {
+		pal.Subs, pal.SubP = AllSubs, 25
+	}
+	b := NewBuilder(g, pal, o)
+	lab := func(t int, form string) Label {
+		l := Label{Type: t, Dyn: t}
+		if form != FormPos {
+			if g.Pct(pal.NameP) {
+				l.Name = Pick(g, pal.Names)
+			}
+			l.Sub = pal.sub(g)
+		}
+		return l
+	}
+	// target over the top ranks
+	tf := GenForm(g)
+	tgt := FuncSpec{ID: TargetID, InForm: tf, OutForm: FormPos}
+	for i, n := 0, g.Int(1, 3); i < n; i++ {
+		l := lab(order[5-g.Int(0, 2)], tf)
+		if sideOK(tgt.In, l, tf, false, false) {
+			tgt.In = append(tgt.In, l)
+		}
+	}
+	if len(tgt.In) == 0 {
+		tgt.In = []Label{{Type: order[5], Dyn: order[5]}}
+		tgt.InForm = FormPos
+	}
+	b.Sc.Target = tgt
+	var produce func(p Label, depth int)
+	produce = func(p Label, depth int) {
+		r := rank[p.Type]
+		if r == 0 || depth <= 0 || g.Pct(25) || len(b.Sc.Convs) >= 7 {
+			b.AddInput(CompatSource(g, pal, p))
+			return
+		}
+		src := CompatSource(g, pal, p)
+		fs := FuncSpec{ID: b.NewID(), InForm: GenForm(g), OutForm: GenForm(g), HasErr: g.Pct(o.ErrP)}
+		if (src.Named() || src.Sub != "") && fs.OutForm == FormPos {
+			fs.OutForm = FormStruct
+		}
+		fs.Out = []Label{src}
+		for i, n := 0, g.Int(1, 3); i < n; i++ {
+			l := lab(order[g.Int(0, r-1)], fs.InForm)
+			if sideOK(fs.In, l, fs.InForm, false, false) {
+				fs.In = append(fs.In, l)
+			}
+		}
+		ins := append([]Label(nil), fs.In...)
+		b.AddConv(fs)
+		if len(ins) >= 2 && g.Pct(40) {
+			// diamond: one converter produces the first two inputs; its own
+			// inputs rank below both
+			lo := rank[ins[0].Type]
+			if rank[ins[1].Type] < lo {
+				lo = rank[ins[1].Type]
+			}
+			s0, s1 := CompatSource(g, pal, ins[0]), CompatSource(g, pal, ins[1])
+			k := FuncSpec{ID: b.NewID(), InForm: GenForm(g), OutForm: FormStruct, HasErr: g.Pct(o.ErrP)}
+			if lo > 0 && sideOK([]Label{s0}, s1, FormStruct, true, false) {
+				k.Out = []Label{s0, s1}
+				for i, n := 0, g.Int(1, 2); i < n; i++ {
+					l := lab(order[g.Int(0, lo-1)], k.InForm)
+					if sideOK(k.In, l, k.InForm, false, false) {
+						k.In = append(k.In, l)
+					}
+				}
+				kin := append([]Label(nil), k.In...)
+				b.AddConv(k)
+				for _, q := range kin {
+					produce(q, depth-1)
+				}
+				ins = ins[2:]
+			}
+		}
+		for _, q := range ins {
+			produce(q, depth-1)
+		}
+	}
+	for _, p := range b.Sc.Target.In {
+		produce(p, g.Int(1, 4))
+	}
 	b.ShuffleInputs()
 	return b.Sc
 }
